@@ -17,6 +17,8 @@ let () =
     | "c11" -> Fam_nav.run
     | "c14" -> Fam_compare.run
     | "c03" -> Fam_parse.c03
+    | "c09" -> Fam_canon.c09
+    | "c10" -> Fam_canon.c10
     | _ -> prerr_endline ("unknown family " ^ fam); exit 2
   in
   let out = Buffer.create (1 lsl 16) in
